@@ -73,6 +73,9 @@ MCNext == \/ BuildFailCodec /\ Mark(1, "BuildFailCodec")
           \/ Deliver /\ Mark(11, "Deliver")
 
 NegBetWidth == "fsize"
+\* the driver's huge-member cases (Gen_MpqBuild!HugeCases) do cross the 64-bit entry width (the bound is an upper estimate
+\* with one bit of slack per field: the ordinary shift-8 file set has a real width of 63 bits and a bound of 66)
+ASSUME BetEntryWidthBound(2^22 - 100, 2^22 + 60) > 64 /\ BetEntryWidthBound(3 * 2^20 + 1, 3 * 2^20 + 200) > 64
 \* Negative controls (cfg MC_MpqBuild_neg): invariants that MUST be violated on the as-is model -- they state the
 \* absence of the named deviations.  The check fails stage A if TLC does not find the counterexamples.
 NegNoFlagDeviation == \A j \in 1..Len(vblocks) : ~DevSectoredNoCompressFlag(vblocks[j])
